@@ -14,7 +14,10 @@ if len(sys.argv) > 3:
     items = [i for i in items if i.name in sys.argv[3:]]
 head = subprocess.run(["git", "-C", "/repo", "rev-parse", "HEAD"], capture_output=True, text=True).stdout.strip()
 ORIGIN = {3: "written by an independent sub-agent that saw only the property text and a scratch worktree of /repo (nothing from /verif); "
-             "round 3 excluded the mechanisms of rounds 1 and 2 and asked for regressions hidden behind indirection or composition"}
+             "round 3 excluded the mechanisms of rounds 1 and 2 and asked for regressions hidden behind indirection or composition",
+          4: "written by an independent sub-agent that saw only the property text and a scratch worktree of /repo (nothing from /verif); "
+             "round 4 asked for regressions that need a specific input, value class or history of operations to show (data- and "
+             "history-dependent), excluding the mechanisms of rounds 1-3"}
 
 
 def sh(cmd, cwd, env=None):
